@@ -160,11 +160,23 @@ def canon(e):
        (X | map(..) | list) | length      ->  X | length             (map / list keep the number of items)
        (X | map(F, args) | list)[i]       ->  X[i] | F(args)         (the i-th mapped item is the mapped i-th item;
        (X | map(attribute="a") | list)[i] ->  X[i].a                  `| list` of a plain sequence is the sequence)
+       loop.index - 1                     ->  loop.index0            (definition of the loop counters)
+       X | count                          ->  X | length             (Jinja's built-in alias)
+       a - (a // n) * n                   ->  a % n                  (definition of the remainder; factors in either order)
     Applied bottom-up; anything else is left as it is."""
     if not isinstance(e, tuple) or not e:
         return e
     e = tuple(canon(x) if isinstance(x, tuple) else x for x in e)
     k = e[0]
+    if k == "filter" and e[1] == "count":
+        e = ("filter", "length") + e[2:]
+    if k == "bin" and e[1] == "-" and e[3] == ("const", 1) and e[2][0] == "attr" and e[2][2] == "index" and e[2][1][0] == "name" \
+            and e[2][1][1].startswith("loop"):
+        return ("attr", e[2][1], "index0")
+    if k == "bin" and e[1] == "-" and e[3][0] == "bin" and e[3][1] == "*":
+        for q, n in ((e[3][2], e[3][3]), (e[3][3], e[3][2])):
+            if q == ("bin", "//", e[2], n):
+                return ("bin", "%", e[2], n)
     if k == "filter" and e[1] == "int" and not e[3] and not e[4] and e[2][0] == "bin" and e[2][1] == "/":
         return ("bin", "//", e[2][2], e[2][3])
     if k == "filter" and e[1] == "length" and not e[3] and not e[4]:
@@ -186,6 +198,47 @@ def canon(e):
             if inner[0] in ("attr", "name"):
                 return ("item", inner, idx)
     return e
+
+
+def canon_items(items):
+    """the same items with every expression (outputs, loop iterables and tests, `if` tests, `set` values) in canonical form"""
+    out = []
+    for it in items:
+        k = it[0]
+        if k == "out":
+            out.append(("out", canon(it[1])) + tuple(it[2:]))
+        elif k == "for":
+            out.append(("for", it[1], canon(it[2]), tuple(canon_items(it[3])), tuple(canon_items(it[4])), it[5], it[6], canon(it[7]) if it[7] is not None else None))
+        elif k == "if":
+            out.append(("if", canon(it[1]), tuple(canon_items(it[2])), tuple(canon_items(it[3]))) + tuple(it[4:]))
+        elif k == "set":
+            out.append(("set", it[1], canon(it[2])) + tuple(it[3:]))
+        elif k == "setblock":
+            out.append(("setblock", it[1], tuple(canon_items(it[2]))) + tuple(it[3:]))
+        else:
+            out.append(it)
+    return out
+
+
+def canon_test(test, positive: bool = True):
+    """A template test with the negations folded into a polarity: -> (test in positive form, polarity).
+    `not t`, `a != b`, `a is ne(b)` flip the polarity; `a is eq(b)` / `equalto` / `==` is the comparison `a == b`; a constant on
+    the left of `==` moves to the right.  An `{% if t %}A{% else %}B{% endif %}` arm B is canon_test(t, False)."""
+    t = canon(test)
+    for _ in range(6):
+        if t[0] == "not":
+            t, positive = t[1], not positive
+        elif t[0] == "test" and t[1] in ("ne", "!=") and len(t[3]) == 1:
+            t, positive = ("cmp", t[2], (("eq", t[3][0]),)), not positive
+        elif t[0] == "test" and t[1] in ("eq", "equalto", "==") and len(t[3]) == 1:
+            t = ("cmp", t[2], (("eq", t[3][0]),))
+        elif t[0] == "cmp" and len(t[2]) == 1 and t[2][0][0] == "ne":
+            t, positive = ("cmp", t[1], (("eq", t[2][0][1]),)), not positive
+        elif t[0] == "cmp" and len(t[2]) == 1 and t[2][0][0] == "eq" and t[1][0] == "const" and t[2][0][1][0] != "const":
+            t = ("cmp", t[2][0][1], (("eq", t[1]),))
+        else:
+            break
+    return t, positive
 
 
 def unfilter(e, transparent=()):
@@ -711,6 +764,10 @@ def propagate_sets(items):
                 out.append(("set", it[1], v) + tuple(it[3:]))
                 if it[1][0] == "name":
                     env[it[1][1]] = v
+                elif it[1][0] in ("tuple", "list") and v[0] in ("tuple", "list") and len(it[1][1]) == len(v[1]) and all(t[0] == "name" for t in it[1][1]):
+                    # `{% set row, col = i // n, i % n %}`: each name stands for its own component
+                    for t, x in zip(it[1][1], v[1]):
+                        env[t[1]] = x
                 else:
                     for n_ in targets(it[1]):
                         env.pop(n_, None)
@@ -720,6 +777,11 @@ def propagate_sets(items):
                 out.append(it)
             elif k == "for":
                 bound = targets(it[1]) | {"loop"}
+                # a namespace object whose attribute the body assigns (`{% set ns.a = .. %}`) changes from one iteration to the
+                # next: inside the loop `ns` is not the value it was bound to before the loop
+                for sub, _ in walk_items(it[3]):
+                    if sub[0] == "set" and sub[1][0] != "name":
+                        bound = bound | targets(sub[1])
                 inner = {n_: v for n_, v in env.items() if n_ not in bound and not (names_of(v) & bound)}
                 body = tuple(rec(it[3], dict(inner)))
                 els = tuple(rec(it[4], dict(env)))
